@@ -108,7 +108,7 @@ def k18_annotate(ctx, pid: str):
         items = com.items if isinstance(com, AList) else ([com] if com is not None else [])
         txt = [repr(x) for x in items]
         okv = any("id(V)" in t for t in txt)
-        okm = any("map(modules" in t and "id(m)" in t and "filter" not in t for t in txt)
+        okm = any("map(modules," in t and "id(m)" in t and "filter" not in t for t in txt)
         out.append(("K18.comment-vector", name, okv, "the comment must name the vector: %r" % (txt,)))
         out.append(("K18.comment-modules", name, okm, "the comment must name every supplied module (a join over all of self.modules): %r" % (txt,)))
         return out
